@@ -65,6 +65,9 @@ struct Scn {
     /// the result reported for "the closer" is that of a `wait_for_shutdown()` future
     /// taken immediately before the drop
     by_drop: bool,
+    /// the handlers released after close() was requested are released only this many
+    /// milliseconds later: a request that takes long to finish is waited for all the same
+    slow_ms: u64,
 }
 
 impl Scn {
@@ -360,7 +363,7 @@ fn run_scenario(rt: &Arc<tokio::runtime::Runtime>, id: &str, sc: &Scn) -> String
         })
     };
     spawn_waiters(sc.waiters[1], &mut futs, &mut tasks);
-    let read_wait = if sc.half_sent { Duration::from_secs(50) } else { Duration::from_secs(20) };
+    let read_wait = if sc.half_sent || sc.slow_ms > 0 { Duration::from_secs(50) } else { Duration::from_secs(20) };
     let mut readers = Vec::new();
     for (s, c, pending) in staying.drain(..) {
         let ctx = ctx.clone();
@@ -379,6 +382,10 @@ fn run_scenario(rt: &Arc<tokio::runtime::Runtime>, id: &str, sc: &Scn) -> String
             Ok(_) => ctx.log(Ev::ConnectAccepted),
             Err(_) => ctx.log(Ev::ConnectRefused),
         }
+    }
+    if sc.slow_ms > 0 && holding {
+        // a request that takes long to finish after shutdown was requested
+        std::thread::sleep(Duration::from_millis(sc.slow_ms));
     }
     for r in &after {
         ctx.release(*r);
@@ -762,7 +769,7 @@ fn main() {
         k += 1;
         v.push((format!("{}{}", tag, k), s));
     };
-    let base = |mode| Scn { mode, inflight: vec![], wait_noticed: false, idle_keepalive: 0, idle_fresh: 0, half_sent: false, waiters: [1, 1, 1], big: 0, pipe: false, by_drop: false };
+    let base = |mode| Scn { mode, inflight: vec![], wait_noticed: false, idle_keepalive: 0, idle_fresh: 0, half_sent: false, waiters: [1, 1, 1], big: 0, pipe: false, by_drop: false, slow_ms: 0 };
     // 1. systematic
     for &m in &modes {
         // nothing in flight
@@ -832,6 +839,7 @@ fn main() {
                 big: if i % 10 == 3 { (1 + rng.below(6) as usize) << 20 } else { 0 },
                 pipe: i % 10 == 7,
                 by_drop: i % 6 == 5,
+                slow_ms: 0,
             },
         );
     }
@@ -844,6 +852,14 @@ fn main() {
         let rt = rt.clone();
         let sc = Scn { half_sent: true, inflight: vec![(Release::After, Client::Stays, false)], ..base(m) };
         half_threads.push(std::thread::spawn(move || run_scenario(&rt, &format!("half{}", i + 1), &sc)));
+    }
+
+    // 4. a handler that goes on for 13 s after shutdown was requested (client connected): one
+    //    scenario per mode, concurrently with everything else like the half-sent ones
+    for (i, &m) in modes.iter().enumerate() {
+        let rt = rt.clone();
+        let sc = Scn { slow_ms: 13_000, inflight: vec![(Release::After, Client::Stays, false), (Release::Before, Client::Stays, false)], idle_keepalive: 1, ..base(m) };
+        half_threads.push(std::thread::spawn(move || run_scenario(&rt, &format!("slow{}", i + 1), &sc)));
     }
 
     let total = scenarios.len();
